@@ -525,9 +525,26 @@ func (x *Exec) applyContract(fr *Frame, st *State, c *Contract, sig *types.Signa
 				continue
 			}
 		}
+		if mentionsCallGhost(en.Expr) {
+			continue // a clause about the callee's own calls (failed / called / result): checked in its body, not visible to callers
+		}
 		st.assume(x.evalClause(env, c, "ensures "+en.Label, en.Expr))
 	}
 	return rets
+}
+
+// mentionsCallGhost: the expression uses failed(...), called(...) or result(...).
+func mentionsCallGhost(e ast.Expr) bool {
+	found := false
+	ast.Inspect(e, func(n ast.Node) bool {
+		if c, ok := n.(*ast.CallExpr); ok {
+			if id, ok := c.Fun.(*ast.Ident); ok && (id.Name == "failed" || id.Name == "called" || id.Name == "result") {
+				found = true
+			}
+		}
+		return !found
+	})
+	return found
 }
 
 func (x *Exec) findIfaceContract(m *types.Func) *Contract {
@@ -1671,9 +1688,7 @@ func (x *Exec) loopRule(fr *Frame, hdr *ssa.BasicBlock, ord int, back bool, st *
 	}
 	// the failed(callee) flags of `propagates` clauses are arbitrary at the loop head; invariants say what is known
 	if x.c != nil && fr.fn == x.fn {
-		for _, p := range x.c.Propagates {
-			st.ghostV[failedKey(p.Label)] = Const(freshName("loop|failed|"+p.Label), BoolS)
-		}
+		x.havocTracked(st)
 	}
 	// a loop-level modifies clause narrows the whole-array havoc caused by calls in the body to the listed
 	// cells; that the body stays inside it is checked at the back edge (loopframe obligations)
